@@ -153,6 +153,21 @@ func (o evtOnly) HandleInactive(ctx netty.InactiveContext, ex netty.Exception) {
 func runC20(seed int64, count int) {
 	rng := rand.New(rand.NewSource(seed))
 	for cs := 0; cs < count; cs++ {
+		// every case runs under a watchdog: a call into the idle handler that never returns (a lock held across the
+		// delivery of an event, say) must not hang the harness but be reported
+		done := make(chan struct{})
+		go func() { defer close(done); runC20case(rng, cs) }()
+		select {
+		case <-done:
+		case <-time.After(3 * time.Second):
+			emit("C20 hang %d", cs)
+			return // the goroutine of the case is lost and shares the generator: stop here
+		}
+	}
+}
+
+func runC20case(rng *rand.Rand, cs int) {
+	{
 		clk := &vclock{}
 		netty.NvClk = clk
 		kind := []string{"r", "w"}[rng.Intn(2)]
